@@ -14,6 +14,7 @@
 //!   X6  fragment wrapper (`frag=`): statements of the host function wrapped in a fn whose
 //!       signature is given in the template
 //!   X7  (nothing to do: generic impl headers are written in the template)
+//!   X8  closure parameter `_` -> `_vxN` (Verus accepts only variable binders; pure rename)
 //! Exit status: 0 ok, 3 anchor not found / unparsable (the driver reports UNDECIDED).
 
 use proc_macro2::Span;
@@ -425,6 +426,34 @@ fn pass_x1(text: String) -> Result<(String, usize), Fail> {
     tf.visit_impl_item_fn(&f);
     let n = tf.edits.len();
     Ok((apply_edits(&text, tf.edits), n))
+}
+
+// ---- X8 closure wildcard parameters: `|_|` -> `|_vx0|` (Verus accepts only variable binders)
+struct WildFinder {
+    edits: Vec<Edit>,
+}
+impl<'ast> Visit<'ast> for WildFinder {
+    fn visit_expr_closure(&mut self, c: &'ast syn::ExprClosure) {
+        for p in c.inputs.iter() {
+            let inner = match p {
+                syn::Pat::Type(t) => &*t.pat,
+                other => other,
+            };
+            if let syn::Pat::Wild(w) = inner {
+                let (s, e) = rng(w.span());
+                let n = self.edits.len();
+                self.edits.push((s, e, format!("_vx{}", n)));
+            }
+        }
+        syn::visit::visit_expr_closure(self, c);
+    }
+}
+fn pass_x8(text: String) -> Result<(String, usize), Fail> {
+    let f = parse_fn(&text)?;
+    let mut wf = WildFinder { edits: vec![] };
+    wf.visit_impl_item_fn(&f);
+    let n = wf.edits.len();
+    Ok((apply_edits(&text, wf.edits), n))
 }
 
 // ---- X4 world threading
@@ -849,6 +878,10 @@ fn do_extract(repo: &str, ex: &Extract, probes: bool, probe_ctr: &mut usize) -> 
     let (t, n1) = pass_x1(t)?;
     if n1 > 0 {
         rewrites.insert("X1", n1);
+    }
+    let (t, n8) = pass_x8(t)?;
+    if n8 > 0 {
+        rewrites.insert("X8", n8);
     }
     let mut stateful: Vec<String> = ex.kv.get("stateful").map(|s| s.split(',').map(|x| x.trim().to_string()).filter(|x| !x.is_empty()).collect()).unwrap_or_default();
     if let Some(d) = ex.kv.get("__stateful_default") {
